@@ -21,6 +21,14 @@ CHECKS["C16"] = dict(
    note="Trusted: Coq kernel+vm_compute; hand-written models Slices/Model.v, Utf8/Model.v; core::str::from_utf8 is std code reached only through "
         "diplomat_is_str; pointer provenance is not modelled.",
    design="§5 C16")
+CHECKS["C03"] = dict(
+   text="Proof (partial): Own/Model.v models the runtime's owners (DiplomatResult/Option, owned slices, callbacks) as token moves and drops; "
+        "C03_exactly_once / C03_never_twice are proved for every well-typed history (invariant: the multiset of dropped + still-owned tokens is "
+        "exactly the set of tokens created), C03_unrepaired_into_refuted records the double drop that was repaired in /repo. Tied to the code "
+        "by running the same histories on the real types with drop-logging payloads and proving per-operation agreement in Coq.",
+   note="Partial: exactly-once is proved over the ownership model; absence of out-of-bounds/use-after-free in real memory is not modelled. "
+        "Trusted: Coq kernel+vm_compute, hand-written model, generator, Rust oracle.",
+   design="§5 C03")
 NOT_YET = {
 }
 ALL = [f"C{i:02d}" for i in range(1, 18)]
